@@ -79,6 +79,24 @@ def iter_cases(ctx, conf, init_variants=True, want_random=True, with_reuse=True)
         yield v, params, rng.choice(tok.KIND_NAMES), rng.choice(tok.DELIVERY), "random"
         if (c & 255) == 0 and ctx.out_of_time():
             return
+    # lengths far beyond the small grid (several hundred frames per token)
+    rng = ctx.rng("large")
+    for i in range(6 if conf["L"] < 10 else 150):
+        max_len = rng.choice((257, 300, 1000))
+        min_len = rng.choice((1, max_len // 2, max_len))
+        max_sil = rng.choice((0, 1, 5, max_len - 1))
+        mode = rng.choice(G.MODES)
+        params = (min_len, max_len, max_sil, 0, 0, mode)
+        V, S = (1,), (0,)
+        pieces = []
+        for _ in range(rng.randint(1, 3)):
+            k = rng.choice((max_len - 1, max_len, max_len + 1, 2 * max_len, max_len - 2))
+            tail = rng.choice((0, 1, max_sil, max_sil + 1))
+            # a full piece whose last frame is the first silent frame after a valid one, and neighbours
+            pieces += [V * max(k, 1) + S * tail + V * rng.choice((0, 1, 3)) + S * (max_sil + 2)]
+        v = tuple(x for p_ in pieces for x in p_)
+        c += 1
+        yield v, params, rng.choice(("tuple", "char", "bytes")), rng.choice(tok.DELIVERY), "large_max_length"
     # the same tokenizer OBJECT used on another stream first: every token of the second use is still bound by the property
     if not with_reuse:
         return
